@@ -2,7 +2,8 @@
    Only statements, each closed by [exact], with Print Assumptions. *)
 From Coq Require Import List Arith.
 Import ListNotations.
-From VMQ Require Import model.WS proofs.WSProofs.
+From Coq Require Import NArith.
+From VMQ Require Import model.WS proofs.WSProofs model.WsOut proofs.WsOutProofs gen.Extracted.
 
 (* Whatever the frame sizes and read-buffer sizes, what the protocol layer has
    read so far, followed by what is still buffered and what is still to arrive,
@@ -37,6 +38,31 @@ Theorem C17_progress : forall (B : Type) (rem : list B) frames b out rem' frames
   (rem <> [] \/ exists d fs, frames = d :: fs /\ d <> []) -> out <> [].
 Proof. exact @ws_read_progress. Qed.
 Print Assumptions C17_progress.
+
+(* ---- the writing side: the connection's writer and its reading side (which answers PINGs) put frames on ONE socket.
+   With the write lock every unit that reaches the socket is a whole frame: whatever the schedule of the two, the client
+   reads an interleaving of their frames, every frame intact.  (Frames with payloads below 256 bytes: the model's header
+   has one length byte; the lock does not depend on the length.) ---- *)
+Theorem C17_outbound_frames_intact_under_the_write_lock : forall data ctl l,
+  Forall small data -> Forall small ctl ->
+  Interleave (map whole data) (map whole ctl) l ->
+  exists fs, Interleave data ctl fs /\ parse (length fs) (concat l) = Some fs.
+Proof. exact locked_writers_frames_intact. Qed.
+Print Assumptions C17_outbound_frames_intact_under_the_write_lock.
+
+Example C17_outbound_nonvacuous :
+  exists l, Interleave (map whole [mkF 130 [1; 2]; mkF 130 [3]]%N) (map whole [mkF 138 []]%N) l /\
+            parse 3 (concat l) = Some [mkF 130 [1; 2]; mkF 138 []; mkF 130 [3]]%N.
+Proof. exact locked_nonvacuous. Qed.
+
+(* the two Write functions of transport/websocket.go take that lock around what they write: re-read on every run *)
+Import String.StringSyntax Ascii.AsciiSyntax.
+Open Scope string_scope.
+Eval vm_compute in (wshape_diff ws_shape).
+Close Scope string_scope.
+Theorem C17_ws_write_shape : wshape_ok ws_shape = true.
+Proof. vm_compute. reflexivity. Qed.
+Print Assumptions C17_ws_write_shape.
 
 (* Non-vacuity: a concrete run with frames smaller, equal and larger than the buffer. *)
 Example C17_nonvacuous :
